@@ -433,6 +433,10 @@ private:
   // Largest frame payload the client will buffer (matches the server default).
   static constexpr std::uint64_t kMaxFramePayload = 16ull * 1024 * 1024;
 
+  // Largest HTTP upgrade response header the client will wait for (matches
+  // HttpServer's MAX_HEADER_SIZE).
+  static constexpr std::size_t kMaxUpgradeResponse = 64 * 1024;
+
   /// \brief The reconnect worker loop. Static (captures NO raw this): it holds a
   /// weak_ptr<WebSocketClient> and a STRONG shared_ptr<ReconnectControl>, and
   /// promotes `self` per attempt. MANDATORY ORDER (F-C4 — headline invariant):
@@ -733,6 +737,13 @@ private:
       auto headerEnd = response.find("\r\n\r\n");
       if (headerEnd == std::string::npos)
       {
+        if (localBuffer.size() > kMaxUpgradeResponse)
+        {
+          // A header section that never ends must not be buffered without bound.
+          setState(WebSocketState::DISCONNECTED);
+          if (_onError) _onError("Upgrade failed: response header too large");
+          return;
+        }
         // Incomplete — put back
         std::lock_guard<std::mutex> lock(_dataMutex);
         _buffer.insert(_buffer.begin(), localBuffer.begin(), localBuffer.end());
